@@ -15,7 +15,7 @@ AsSet(v) == Range(v)                         \* a JSON list of [name, id] pairs 
 
 ReservedM == {"ports", "signals", "instances", "instarrays", "instbundles", "bundles",
               "literals", "props", "namespace", "add", "get"}
-ReservedB == {"signals", "bundles", "namespace"}
+ReservedB == {"signals", "bundles", "namespace", "roles", "props"}     \* (`roles` holds the RoleSet: an HDL value may not take the name)
 ViewsM == {"ports", "signals", "instances", "instarrays", "instbundles", "bundles"}
 ViewsB == {"signals", "bundles"}
 ViewOfM(k) == CASE k = "port" -> "ports" [] k = "signal" -> "signals" [] k = "inst" -> "instances"
